@@ -361,7 +361,11 @@ pub fn drive_undoall() -> Vec<String> {
         ("new_sheet", Box::new(|m| m.new_sheet())), ("sheet color", Box::new(|m| m.set_sheet_color(0, &crate::types::Color::Rgb("#FF0000".to_string())))),
         ("grid lines", Box::new(|m| m.set_show_grid_lines(0, false))),
     ];
-    for (name, op) in ops.iter() {
+    for (loc, lang) in [("en", "en"), ("de", "es")] {
+    let make = || { let mut m = make(); if loc != "en" { let _ = m.set_locale(loc); let _ = m.set_language(lang); } m };
+    for (name0, op) in ops.iter() {
+        let name = &format!("[{loc}/{lang}] {name0}");
+        if loc != "en" && *name0 == "locale" { continue; }
         let mut m = make();
         let before = dump_state(&m);
         if let Err(e) = op(&mut m) { let _ = e; if dump_state(&m) != before { fails.push(format!("{name}: the operation failed and changed the state")); } continue; }
@@ -398,6 +402,7 @@ pub fn drive_undoall() -> Vec<String> {
         if dump_state(&m) != after { fails.push(format!("{name}: the state after redo differs from the state after the operation")); }
         let _ = m.undo();
         if dump_state(&m) != before { fails.push(format!("{name}: the state after the second undo differs")); }
+    }
     }
     fails
 }
